@@ -57,6 +57,7 @@ KNOWN_INERT = {
     "_python_append_env", "_save_mod",
 }
 OS_ALLOWED = {"clock", "date", "difftime", "time"}
+MAX_GEN = 2  # objects freshly created by calls are followed this many call levels deep
 IMMUTABLE = (type(None), bool, int, float, str, bytes)
 
 
@@ -96,6 +97,8 @@ class Extractor:
         self.notes: list[str] = []
         self.host_cls: dict[str, str] = {}
         self.tool: dict[str, str] = {}
+        self.cur_gen = 0
+        self.thorough = False
         self._register_host()
 
     # ---------------------------------------------------------------- identity
@@ -165,8 +168,8 @@ class Extractor:
 
     def py_class(self, o) -> str:
         """'' = allowed (intended callable helper / immutable argument value), else class."""
-        if isinstance(o, tuple) or isinstance(o, frozenset):
-            return "" if all(is_value(i) or (isinstance(i, tuple) and not self.py_class(i)) for i in o) else "py:" + type(o).__name__
+        if isinstance(o, tuple):
+            return ""  # immutable container: its items are classified on their own
         if isinstance(o, functools.partial):
             return ""
         if isinstance(o, (types.FunctionType, types.BuiltinFunctionType)) and (
@@ -227,13 +230,16 @@ class Extractor:
                     sig = sorted(k for k in o.keys() if isinstance(k, str))[:40]
                 except Exception:
                     sig = None
-            self.nodes[n] = {"kind": lt or "py", "desc": self.desc(o), "cls": cls, "sig": sig}
+            self.nodes[n] = {"kind": lt or "py", "desc": self.desc(o), "cls": cls, "sig": sig, "gen": self.cur_gen}
             self.objs[n] = o
             self.queue.append(n)
         return n
 
     def add_edge(self, src: str, label: str, target, req=()) -> str | None:
+        # generation = number of call results on the discovery chain (bounds fresh-object chains)
+        self.cur_gen = self.nodes[src].get("gen", 0) + (1 if label.startswith("c:") else 0)
         dst = self.add_node(target)
+        self.cur_gen = 0
         if dst is None:
             return None
         key = (src, label, dst)
@@ -255,6 +261,13 @@ class Extractor:
         c = str(self.canary_path)[:-4]
         rel = "../" * 12 + c.lstrip("/")
         names += [c, "/" + c, "//" + c, rel, rel.replace("/", ":"), c.replace("/", ":"), "....//" * 12 + c.lstrip("/")]
+        if self.thorough:
+            # every global of the host, every global of the module environment, and more spellings of the canary path
+            names += [k for k in G.keys() if isinstance(k, str)]
+            names += [k for k in self.env.keys() if isinstance(k, str)]
+            names += ["Module:" + n for n in STD_NAMES] + [n.upper() for n in STD_NAMES] + [" " + n + " " for n in STD_NAMES[:6]]
+            names += [c + ".lua", "./" + c, ".:" + c.replace("/", ":"), "\n" + c, " " + c, c.replace("/", "//"),
+                      "/" * 5 + c.lstrip("/"), "..././" * 12 + c.lstrip("/"), "\\" + c, "file://" + c]
         out, seen = [], set()
         for n in names:
             if n not in seen:
@@ -277,6 +290,8 @@ class Extractor:
         return out
 
     def call_edges(self, fn_node: str, fn, argvecs, req=()):
+        if self.nodes[fn_node].get("gen", 0) >= MAX_GEN:
+            return
         for args in argvecs:
             try:
                 res = self.pcallv(fn, *self.conc_args(args))
@@ -392,7 +407,7 @@ class Extractor:
             self.tool["next"] = self.tool["pairs"]
         # the pseudo node for string values: any program can write a string literal
         S = "S"
-        self.nodes[S] = {"kind": "string", "desc": "any string value", "cls": "", "sig": None}
+        self.nodes[S] = {"kind": "string", "desc": "any string value", "cls": "", "sig": None, "gen": 0}
         gm = self.env_fn("getmetatable")
         smeta = self.rawmt("")
         if gm is not None:
@@ -436,7 +451,7 @@ class Extractor:
                                 fn = o[m]
                             except Exception:
                                 fn = None
-                            if fn is None or (n, m) in done_calls:
+                            if fn is None or (n, m) in done_calls or (m == "newChild" and node.get("gen", 0) > 0):
                                 continue
                             done_calls.add((n, m))
                             fnn = self.add_edge(n, "f:" + m, fn)
@@ -496,7 +511,8 @@ def boot(scratch: Path, modules: dict[str, str] | None = None):
     that helpers behave as they do while a module runs."""
     mods = {"c06probe0": PROBE0, "c06data": "return { a = 1, t = { 'x' } }"}
     mods.update(modules or {})
-    ctx = luafix.make_ctx(scratch, mods, templates={"c06tpl": "{{#invoke:c06probe0|main|inner}}"}, record=True)
+    ctx = luafix.make_ctx(scratch, mods, templates={"c06tpl": "{{#invoke:c06probe0|main|inner}}",
+                                                    "c06tplp": "{{#invoke:{{{m}}}|main|inner}}"}, record=True)
     out = ctx.expand("{{c06tpl|pa|pk=pv}}")
     if out != "ok":
         raise RuntimeError(f"sandbox boot failed: {out!r} {ctx.errors[:1]}")
@@ -507,9 +523,10 @@ def boot(scratch: Path, modules: dict[str, str] | None = None):
     return ctx, env, frame
 
 
-def extract(scratch: Path):
+def extract(scratch: Path, thorough: bool = False):
     ctx, env, frame = boot(scratch)
     ex = Extractor(ctx, env, frame, scratch)
+    ex.thorough = thorough
     g = ex.run()
     ctx.lua_env_stack.clear()
     ctx.lua_frame_stack.clear()
